@@ -55,6 +55,9 @@ MUTATION_DRILLS = [
      "existing_tests": "2 tests fail", "fired": "VIOLATION spec-mismatch:include (found input)"},
     {"mutation": "build_info_plugin.cc before 24599a7 (unchanged tree at the time): __build_info written in place into a shared root map",
      "existing_tests": "all pass", "fired": "VIOLATION source-changed:* (found input) - genuine defect, fixed"},
+    {"mutation": "config_compiler.cc before 76ec084 (unchanged tree at the time): AppendToList wrote twice through one cow reference",
+     "existing_tests": "all pass", "fired": "VIOLATION spec-mismatch:include+patch+append+index on the targeted family index-shift (found input) - genuine defect, "
+                                            "predicted by the ownership invariant of the frame proof failing for '@before last', fixed"},
     {"mutation": "config_compiler.cc before 89053cb (unchanged tree at the time): `loaded` checked only on the first reference to a missing resource",
      "existing_tests": "all pass", "fired": "VIOLATION spec-mismatch:include+patch+custom on the targeted family custom-without-base (found input) - genuine defect, fixed"},
 ]
